@@ -25,7 +25,10 @@ CHECKS["C03"] = dict(
          "weakness) is that semantics; (c) C03_value / C03_redecided combine them per horizon.  No bound on nesting, sharing, horizon.  "
          "Tie: on every run the real implementation's literal valuation in every answer set is checked to solve exactly these equations on "
          "all reachable pairs and each theory atom to equal its root formula (instrumentation from outside, no hook).  Search: witness "
-         "atoms at every state against the executable LTL_f specification on all traces.  placeholder_life — the life cycle of the obligation of a `>` beyond the horizon (model of Next.do_translate and the todo list; every call of the real method is compared with the model): pending with the end-of-trace value and queued under its own step exactly while the target state does not exist, resolved in the one call in which the horizon reaches the target.",
+         "atoms at every state against the executable LTL_f specification on all traces.  occurrences_equated / occurrences_follow — "
+         "model StepData of BodyFormula.translate / add_atom / StepData.add_literal: after any sequence of registrations of occurrence "
+         "literals and translations of a (formula, step) pair ending with a translation, every occurrence is the formula's literal or has "
+         "been made equivalent to it and nothing else is written (random call sequences on the real methods vs the model).  placeholder_life — the life cycle of the obligation of a `>` beyond the horizon (model of Next.do_translate and the todo list; every call of the real method is compared with the model): pending with the end-of-trace value and queued under its own step exactly while the target state does not exist, resolved in the one call in which the horizon reaches the target.",
     design="§6 C03", technique="Lean 4 proof (unique solution of the translation's equation system = LTL_f) + equation-level correspondence with the real translation")
 
 CHECKS["C05"] = dict(
@@ -35,7 +38,10 @@ CHECKS["C05"] = dict(
          "on the distance to the end of the trace for iteration, including the sufficiency of the iteration fuel; del_doc_eq — the code's "
          "create_dynamic_formula/create_path build a formula with the specified semantics (atoms as test-then-step, &final as [T]false); "
          "runs_within — runs never leave 0..h.  Tie and search as for C03 (equation-level correspondence on real runs; witness atoms vs "
-         "the executable LDL_f specification on all traces, normal-form generator).",
+         "the executable LDL_f specification on all traces, normal-form generator).  normal_form_necessary — the hypothesis cannot be "
+         "dropped: for <(a?)*> b at horizon 1 the equations have two solutions, one of them not the LDL_f value; the real code is run at "
+         "that point on every run (two answer sets for one trace, recorded in the evidence) and the equation-level tie is also evaluated "
+         "on formulas outside the normal form.",
     design="§6 C05", technique="Lean 4 proof (unique solution of the Diamond/Box equation system = LDL_f under normal form) + equation-level correspondence")
 
 CHECKS["C01"] = dict(
@@ -99,7 +105,7 @@ CHECKS["C04"] = dict(
 CHECKS["C16"] = dict(
     text="Theorems (Lean 4): every documented abbreviation and duality as an equivalence of the specification semantics — in every "
          "world of every THT interpretation for the head-admissible ones (&false, &initial, &final, <<, >>, ;>, ;>:, <;, <:;, n-fold = "
-         "nested, 0-fold, unary >? >* <? <*), on total traces for the classical dualities (>: , >*, <*) — the substitution theorem "
+         "nested, nested step operators of one strength add up (and those of different strength do not: no_law_mixed_next/prev), 0-fold, unary >? >* <? <*), on total traces for the classical dualities (>: , >*, <*) — the substitution theorem "
          "that lifts an equivalence to every sub-formula position of every context (in_every_context / in_every_body_context), the "
          "past/future mirror symmetry on reversed traces, and code_level which transports the result to the formulas create_formula "
          "builds.  Tie: the C03 equation-level correspondence on C[lhs], C[rhs]; search: metamorphic on the implementation (witnesses "
